@@ -270,6 +270,8 @@ def main(tier):
     PS = [(0.1, 1e-3, 1.4e6, 4.99e8, 4.5e4), (0.02, 3e-4, 2.0e5, 5.0e8, 0.0)]
     jobs = [(job_ctor_equiv, (m, 8, nb, 4)) for m in ('lin', 'sin') for nb in (1, 2)]
     jobs += [(job_zero_amplitude_queue, (m, 8, 4)) for m in ('lin', 'sin')] + [(job_flush_history, (8, 4, m)) for m in ('lin', 'sin')]
+    import mainparams
+    jobs += [(mainparams.job_map_parameters, ('C03',))]      # what main builds: the dynamic map of either model gets the parameters of the static one (same angle / same revolution part, voltage, frequency, loss)
     jobs += [(job_end_to_end, (m, 8, nb, it, p)) for m in ('lin', 'sin') for nb, it in ((1, 4), (2, 3)) for p in PS]
     jobs += [(job_queue, (8, 4, L)) for L in (1, 2, 3)] + [(job_queue, (8, 4, 2, 'lin')), (job_queue, (9, 2, 1, 'lin'))] + [(job_calcmod, (8, 4))]
     jobs += [(job_queue_whole_run, (m, 8, 4, S)) for m in ('lin', 'sin') for S in (700, 40000) if tier != 'quick' or S == 700 or m == 'sin']      # longer than the container's node size; thorough: longer than any plausible block size (2^15)
